@@ -1049,6 +1049,8 @@ func (g *Gen) instr(in ssa.Instruction, st *State) {
 			val := T(fmt.Sprintf("(select (select %s %s) %s)", vals.S, m.S, k.S), w.sortOf(mt.Elem()))
 			has := T(fmt.Sprintf("(select (select %s %s) %s)", dom.S, m.S, k.S), "Bool")
 			w.assume(fmt.Sprintf("(=> (not %s) (= %s %s))", has.S, val.S, w.zero(mt.Elem()).S))
+			// the nil map has no keys
+			w.assume(fmt.Sprintf("(=> %s (not (= %s 0)))", has.S, m.S))
 			for _, f := range w.typeFacts(val, mt.Elem()) {
 				w.assume(f)
 			}
@@ -1107,6 +1109,12 @@ func (g *Gen) instr(in ssa.Instruction, st *State) {
 		st.defers = append(st.defers, v)
 	case *ssa.Go:
 		g.note("go statement not modelled")
+		if ghostInts["spawned"] {
+			// built-in ghost counter (when the unit declares `ghost spawned int`): the number of goroutines launched;
+			// what they do is not modelled, that they were started is
+			arr := w.heapArr(st, "ghost:spawned", "Int")
+			st.heap["ghost:spawned"] = T(fmt.Sprintf("(store %s 0 (+ (select %s 0) 1))", arr.S, arr.S), arr.Sort)
+		}
 	case *ssa.Extract:
 		g.vals[v] = g.tupleElem(v.Tuple, v.Index, v.Type())
 	case *ssa.MakeSlice:
